@@ -3,6 +3,7 @@ import MazeVerif.Lemmas.WilsonRefine
 import MazeVerif.Lemmas.SpanningMask
 import MazeVerif.Props.C01
 import MazeVerif.Props.C19Table33
+import MazeVerif.Props.C19Table24
 /-! # C19 — Wilson's generator samples spanning trees uniformly
 
 Model: `gen_wilson` as a step machine (`Model/WilsonStep.lean`: one step per random draw of the real code), with the
@@ -40,7 +41,8 @@ def UniformFrom (rows cols n0 N : Nat) (eps : Rat) : Prop :=
 
 /-- the part of the property that is proved (grids 2x2, 2x3, 3x2, 3x3; the property names "a small grid") -/
 def C19_full_partial : Prop :=
-  UniformFrom 2 2 80 4 eps9 ∧ UniformFrom 2 3 200 15 eps9 ∧ UniformFrom 3 2 200 15 eps9 ∧ UniformFrom 3 3 300 192 eps9
+  UniformFrom 2 2 80 4 eps9 ∧ UniformFrom 2 3 200 15 eps9 ∧ UniformFrom 3 2 200 15 eps9 ∧ UniformFrom 3 3 300 192 eps9 ∧
+  UniformFrom 2 4 500 56 eps9 ∧ UniformFrom 4 2 500 56 eps9
 
 /-- the full statement: uniformity in the limit on EVERY grid (Wilson's theorem). NOT proved here. -/
 def C19_full : Prop :=
@@ -141,9 +143,11 @@ theorem C19_uniform_2x2 : UniformFrom 2 2 80 4 eps9 := uniform_of_table table_2x
 theorem C19_uniform_2x3 : UniformFrom 2 3 200 15 eps9 := uniform_of_table table_2x3
 theorem C19_uniform_3x2 : UniformFrom 3 2 200 15 eps9 := uniform_of_table table_3x2
 theorem C19_uniform_3x3 : UniformFrom 3 3 300 192 eps9 := uniform_of_table table_3x3
+theorem C19_uniform_2x4 : UniformFrom 2 4 500 56 eps9 := uniform_of_table table_2x4
+theorem C19_uniform_4x2 : UniformFrom 4 2 500 56 eps9 := uniform_of_table table_4x2
 
 theorem C19_full_partial_holds : C19_full_partial :=
-  ⟨C19_uniform_2x2, C19_uniform_2x3, C19_uniform_3x2, C19_uniform_3x3⟩
+  ⟨C19_uniform_2x2, C19_uniform_2x3, C19_uniform_3x2, C19_uniform_3x3, C19_uniform_2x4, C19_uniform_4x2⟩
 
 /-- every spanning tree of the 3x3 grid is returned by some run of the executable machine (likewise 2x2, 2x3, 3x2) -/
 theorem C19_tree_appears_of_uniform {rows cols n0 N : Nat} (hu : UniformFrom rows cols n0 N eps9) (hN : 0 < N)
@@ -167,6 +171,10 @@ theorem C19_every_tree_appears_2x3 : ∀ T ∈ allSpanningMasks 2 3, ∃ a b ds 
   C19_tree_appears_of_uniform C19_uniform_2x3 (by norm_num) (by norm_num)
 theorem C19_every_tree_appears_3x2 : ∀ T ∈ allSpanningMasks 3 2, ∃ a b ds s, run 3 2 (a :: b :: ds) ds.length = some (s, []) ∧ s.edges = T :=
   C19_tree_appears_of_uniform C19_uniform_3x2 (by norm_num) (by norm_num)
+theorem C19_every_tree_appears_2x4 : ∀ T ∈ allSpanningMasks 2 4, ∃ a b ds s, run 2 4 (a :: b :: ds) ds.length = some (s, []) ∧ s.edges = T :=
+  C19_tree_appears_of_uniform C19_uniform_2x4 (by norm_num) (by norm_num)
+theorem C19_every_tree_appears_4x2 : ∀ T ∈ allSpanningMasks 4 2, ∃ a b ds s, run 4 2 (a :: b :: ds) ds.length = some (s, []) ∧ s.edges = T :=
+  C19_tree_appears_of_uniform C19_uniform_4x2 (by norm_num) (by norm_num)
 theorem C19_every_tree_appears_3x3 : ∀ T ∈ allSpanningMasks 3 3, ∃ a b ds s, run 3 3 (a :: b :: ds) ds.length = some (s, []) ∧ s.edges = T :=
   C19_tree_appears_of_uniform C19_uniform_3x3 (by norm_num) (by norm_num)
 
